@@ -84,38 +84,51 @@ class Dump:
         return [(n['kind'], n['parent'], n['prev'], n['next'], n['last']) for n in self.nodes]
 
     def markup(self):
+        """elements, comments, PIs (no text nodes): kind, parent (as rank among non-text nodes), strings"""
+        rank = {}
+        for n in self.nodes:
+            if n['kind'] != 'T':
+                rank[n['id']] = len(rank)
         out = []
         for n in self.nodes:
             k = n['kind']
+            pr = rank.get(n['parent'])
             if k == 'E':
-                out.append(('E', n['parent'], n['local'][0]))
+                out.append(('E', pr, n['local'][0]))
             elif k == 'P':
-                out.append(('P', n['parent'], n['target'][0], n['value'][0] if n['value'] else None))
+                out.append(('P', pr, n['target'][0], n['value'][0] if n['value'] else None))
             elif k == 'C':
-                out.append(('C', n['parent'], n['text'][0]))
-            elif k == 'T':
-                out.append(('T', n['parent']))
-            else:
+                out.append(('C', pr, n['text'][0]))
+            elif k == 'R':
                 out.append(('R',))
         return out
 
     def texts(self):
         return [(n['id'], n['parent'], n['prev'], n['text'][0]) for n in self.nodes if n['kind'] == 'T']
 
+    def erank(self):
+        r = {}
+        for n in self.nodes:
+            if n['kind'] == 'E':
+                r[n['id']] = len(r)
+        return r
+
     def attributes(self):
         out = []
+        er = self.erank()
         for n in self.nodes:
             if n['kind'] == 'E':
                 a, b = n['attrs']
-                out.append((n['id'], [(self.uri(x['ns']), x['local'][0], x['value'][0]) for x in self.attrs[a:b]]))
+                out.append((er[n['id']], [(self.uri(x['ns']), x['local'][0], x['value'][0]) for x in self.attrs[a:b]]))
         return out
 
     def namespaces(self):
         out = []
+        er = self.erank()
         for n in self.nodes:
             if n['kind'] == 'E':
                 a, b = n['attrs']
-                out.append((n['id'], self.uri(n['ns']), n['local'][0], self.ns_list(n),
+                out.append((er[n['id']], self.uri(n['ns']), n['local'][0], self.ns_list(n),
                             [(self.uri(x['ns']), x['local'][0]) for x in self.attrs[a:b]]))
         return out
 
@@ -202,8 +215,6 @@ def obs_limit(di, dm, il, ml):
     """C15: is it NodesLimitReached; node count when both accept"""
     a = res_kind(res_line(il)) == 'err:NodesLimitReached'
     b = res_kind(res_line(ml)) == 'err:NodesLimitReached'
-    if di.ok and dm.ok:
-        return (a, len(di.nodes)), (b, len(dm.nodes))
     return (a,), (b,)
 
 def obs_reject_wellformed(fn):
@@ -215,6 +226,18 @@ def obs_reject_wellformed(fn):
         if dm.ok and not di.ok:
             return (False, res_line(il)), (True,)
         return None, None
+    return f
+
+def obs_entities(fn):
+    """C07: like obs_reject_wellformed, restricted to inputs that declare entities"""
+    inner = obs_reject_wellformed(fn)
+    def f(di, dm, il, ml):
+        c = [l for l in il if l.startswith('CASE ')]
+        if c:
+            hx = c[0].split(' ')[4]
+            if '3c21454e54495459' not in hx:     # "<!ENTITY"
+                return None, None
+        return inner(di, dm, il, ml)
     return f
 
 def obs_errors(di, dm, il, ml):
@@ -342,7 +365,7 @@ PROPS['C05'] = P_('attributes', 'arena,ev',
 PROPS['C06'] = P_('namespaces', 'arena', plan(G_COMMON_QUICK, G_COMMON_THOROUGH),
                   observable=mk_obs(lambda d: d.namespaces()), internal=['V', 'O'], special='ns_scale')
 PROPS['C07'] = P_('entity reference = replacement text', 'arena', plan([['model', 1500, 10]], [['model', 20000, 10]]),
-                  observable=obs_reject_wellformed(lambda d: d.content()), special='hoist')
+                  observable=obs_entities(lambda d: d.content()), special='hoist')
 PROPS['C08'] = P_('ill-formed documents are rejected', 'tok,arena', plan(G_COMMON_QUICK, G_COMMON_THOROUGH),
                   observable=lambda di, dm, il, ml: (res_kind(res_line(il)) == 'ok', res_kind(res_line(ml)) == 'ok'),
                   internal=['RES', 'TKRES'], special='illform')
@@ -369,7 +392,7 @@ PROPS['C17'] = P_('node identity, ordering, hashing', 'arena,api', plan([['model
 PROPS['C18'] = P_('borrowed strings', 'arena', plan(G_COMMON_QUICK[:3], G_COMMON_THOROUGH[:4]),
                   observable=mk_obs(lambda d: d.storages()), impl_checks=[chk_borrowed], special='storage')
 PROPS['C19'] = P_('determinism and features', 'arena', plan([['model', 800, 20], ['fixtures', 4000]], [['model', 10000, 20], ['fixtures', 20000], ['mut', 5000, 400]]),
-                  observable=mk_obs(lambda d: d.content()), internal=[], special='features')
+                  observable=None, internal=[], special='features')
 PROPS['C20'] = P_('immutable, thread-shareable, no unsafe', 'arena,api', plan([['model', 200, 0]], [['model', 2000, 0]]),
                   observable=obs_api(['DQ', 'Q']), special='threads')
 
